@@ -533,8 +533,10 @@ class Evaluator:
         fi = fv.fi
         qn = fi.qualname
         if qn in self.summaries:
-            self.summaries_used[qn] = self.summaries_used.get(qn, 0) + 1
-            return self.summaries[qn](self, args, kwargs, fv.self_val)
+            r = self.summaries[qn](self, args, kwargs, fv.self_val)
+            if r is not NotImplemented:
+                self.summaries_used[qn] = self.summaries_used.get(qn, 0) + 1
+                return r
         if qn in self.entry_hooks:
             r = self.entry_hooks[qn](self, args, kwargs, fv.self_val)
             if r is not NotImplemented:
@@ -606,10 +608,28 @@ class Evaluator:
             if isinstance(a, Cls) and isinstance(b, Cls) and a.info is not None and b.info is not None:
                 return b.info in self.prog.mro(a.info)
             if isinstance(a, Cls) and isinstance(b, Cls):
-                return a.name == b.name or b.name == "object"
+                return a.name == b.name or b.name == "object" or (a.name, b.name) in (("bool", "int"),)
             raise AnalysisError(f"absint: issubclass at {where}")
         if name == "isclass":
             return isinstance(args[0], Cls)
+        if name in ("getattr", "hasattr") and len(args) >= 2 and isinstance(args[1], str):
+            try:
+                v = self.get_attr(args[0], args[1], where)
+            except PyRaise as e:
+                if e.etype != "AttributeError":
+                    raise
+                if name == "hasattr":
+                    return False
+                if len(args) > 2:
+                    return args[2]
+                raise
+            except AnalysisError:
+                if name == "hasattr":
+                    return False
+                if len(args) > 2:
+                    return args[2]
+                raise
+            return True if name == "hasattr" else v
         if name == "chain":
             return Iter([x for a in args for x in self.iterate(a, where)])
         if name == "chain_from_iterable":
@@ -736,6 +756,33 @@ class Evaluator:
                     if self.equal(k, args[0]):
                         return v
                 return args[1] if len(args) > 1 else None
+            if name == "pop":
+                for k in list(obj):
+                    if self.equal(k, args[0]):
+                        return obj.pop(k)
+                if len(args) > 1:
+                    return args[1]
+                raise PyRaise("KeyError", where)
+            if name == "setdefault":
+                for k, v in obj.items():
+                    if self.equal(k, args[0]):
+                        return v
+                obj[_hashable(args[0])] = args[1] if len(args) > 1 else None
+                return obj[_hashable(args[0])]
+            if name == "update":
+                for a in args:
+                    items = a.items() if isinstance(a, dict) else self.iterate(a, where)
+                    for k, v in list(items):
+                        self.call_method_builtin(obj, "pop", [k, None], {}, where)
+                        obj[_hashable(k)] = v
+                for k, v in kwargs.items():
+                    obj[k] = v
+                return None
+            if name == "copy":
+                return dict(obj)
+            if name == "clear":
+                obj.clear()
+                return None
             raise AnalysisError(f"absint: dict.{name}() at {where}")
         if isinstance(obj, ModelDict):
             raise AnalysisError(f"absint: the fields of a field set are looked at ({name}()) at {where}: decided per level only")
